@@ -307,6 +307,20 @@ static Thread* choose_next(Thread* me, bool me_runnable, bool yielding) {
     if (t) return t;
     n = count_runnable(r);
   }
+  if (G.post_stall_den) {
+    if (G.stall_tid >= 0 && G.steps >= G.stall_to) G.stall_tid = -1;
+    if (G.stall_tid < 0 && G.cur_kind == P_POST && me_runnable && n > 1 && G.srng.chance(1, G.post_stall_den)) {
+      G.stall_tid = me->id;
+      G.stall_to = G.steps + G.srng.range(30, 400);
+      G.faultc["post_publish_stall"]++;
+    }
+    if (G.stall_tid >= 0) {
+      Thread* o[MAXT]; int m = 0;
+      for (int i = 0; i < n; i++) if (r[i]->id != G.stall_tid) o[m++] = r[i];
+      if (m > 0) { memcpy(r, o, sizeof(Thread*) * (size_t)m); n = m; }
+      if (me_runnable && me->id == G.stall_tid && m > 0) me_runnable = false;  // policies below must not keep it running
+    }
+  }
   if (n == 1) return r[0];
   switch (G.policy) {
     default:
@@ -502,7 +516,9 @@ void point(int kind, uintptr_t addr) {
   if (!me || !G.active || G.cur != me) return;
   tick(me, kind, addr);
   if (G.trace) fprintf(stderr, "T%d op%d k%u kind%d addr=%lx now=%lld\n", me->id, me->op, me->k, kind, (unsigned long)addr, (long long)G.now);
+  G.cur_kind = kind;
   Thread* next = decide(me, true, kind == P_YIELD);
+  G.cur_kind = 0;
   switch_to(me, next);
 }
 
